@@ -182,6 +182,11 @@ func runDrainOps(ops []string) []string {
 			}
 			time.Sleep(15 * time.Millisecond) // let a waiting updater finish if it now can
 			out[i] = fmt.Sprintf("backend admitted=%d inforce=%d", e.admitted[r], inforce)
+		case "wait":
+			// longer than the RPC-level timeout (150 ms): every request still inside the backend has by now been
+			// abandoned by its caller ("operation timed out"), but is still executing under the policy it was admitted with
+			time.Sleep(220 * time.Millisecond)
+			out[i] = "ok"
 		case "state":
 			upd := "idle"
 			if e.updDone != nil {
@@ -284,6 +289,9 @@ func genDrainCase(rng *rand.Rand, n int) []string {
 				upd = false
 			}
 		default:
+			if len(active) > 0 && rng.Intn(3) == 0 {
+				ops = append(ops, "drain wait")
+			}
 			ops = append(ops, "drain state")
 		}
 	}
